@@ -279,4 +279,79 @@ theorem xDBLMUL_eq (NW BITS : Nat) (hW : 64 * NW = BITS) (hB : 0 < BITS) (k l : 
   rw [m0, m1, m2]
   cases hbk : k.testBit 0 <;> cases hbl : l.testBit 0 <;> simp [dblmulOut, mask]
 
+/-! ## xDBLMUL_bounded -/
+
+/-- the recoding loop of the bounded variant is the same generated text -/
+theorem bounded_loop1_eq : @SqiGen.xDBLMUL_bounded_loop1 = @SqiGen.xDBLMUL_loop1 := rfl
+
+def MainRelB (g : Bool × EcPoint F × EcPoint F × EcPoint F × EcPoint F × EcPoint F × EcPoint F × EcPoint F ×
+      EcPoint F × EcPoint F × EcPoint F) (s : DState F) : Prop :=
+  g.2.1 = s.D1a ∧ g.2.2.1 = s.D1b ∧ g.2.2.2.1 = s.D2a ∧ g.2.2.2.2.1 = s.D2b ∧ g.2.2.2.2.2.1 = s.R0 ∧
+  g.2.2.2.2.2.2.1 = s.R1 ∧ g.2.2.2.2.2.2.2.1 = s.R2 ∧ g.2.2.2.2.2.2.2.2.1 = s.T0 ∧ g.2.2.2.2.2.2.2.2.2.1 = s.T1 ∧
+  g.2.2.2.2.2.2.2.2.2.2 = s.T2
+
+theorem main_loop_step_b (BITS TPE f : Nat) (r : Nat → Nat) (hr : ∀ j, r j ≤ 1) (A24 : EcPoint F) (i : Nat)
+    (g : Bool × EcPoint F × EcPoint F × EcPoint F × EcPoint F × EcPoint F × EcPoint F × EcPoint F ×
+      EcPoint F × EcPoint F × EcPoint F) (s : DState F) (h : MainRelB g s) :
+    MainRelB (SqiGen.xDBLMUL_bounded_loop2 BITS TPE f r A24 g i)
+      (dblmulStep A24 s (digitsOf r i) (decide (i ≤ f + 2 + (BITS - TPE)))) := by
+  obtain ⟨mk, D1a, D1b, D2a, D2b, R0, R1, R2, T0, T1, T2⟩ := g
+  obtain ⟨sR0, sR1, sR2, sT0, sT1, sT2, sD1a, sD1b, sD2a, sD2b⟩ := s
+  obtain ⟨h0, h1, h2, h3, h4, h5, h6, h7, h8, h9⟩ := h
+  simp only at h0 h1 h2 h3 h4 h5 h6 h7 h8 h9
+  subst h0 h1 h2 h3 h4 h5 h6 h7 h8 h9
+  have ha : r (2 * i) = 0 ∨ r (2 * i) = 1 := by have := hr (2 * i); omega
+  have hb : r (2 * i + 1) = 0 ∨ r (2 * i + 1) = 1 := by have := hr (2 * i + 1); omega
+  by_cases hap : i ≤ f + 2 + (BITS - TPE) <;> rcases ha with ha | ha <;> rcases hb with hb | hb <;>
+    simp [MainRelB, SqiGen.xDBLMUL_bounded_loop2, dblmulStep, digitsOf, mask, ha, hb, hap]
+
+theorem main_loop_fold_b (BITS TPE f : Nat) (r : Nat → Nat) (hr : ∀ j, r j ≤ 1) (A24 : EcPoint F) (l : List Nat) :
+    ∀ (g : Bool × EcPoint F × EcPoint F × EcPoint F × EcPoint F × EcPoint F × EcPoint F × EcPoint F ×
+      EcPoint F × EcPoint F × EcPoint F) (s : DState F), MainRelB g s →
+      MainRelB (l.foldl (SqiGen.xDBLMUL_bounded_loop2 BITS TPE f r A24) g)
+        ((l.map (fun i => (i, digitsOf r i))).foldl
+          (fun st ir => dblmulStep A24 st ir.2 (decide (ir.1 ≤ f + 2 + (BITS - TPE)))) s) := by
+  induction l with
+  | nil => intro g s h; exact h
+  | cons i l ih =>
+    intro g s h
+    simp only [List.foldl_cons, List.map_cons]
+    exact ih _ _ (main_loop_step_b BITS TPE f r hr A24 i g s h)
+
+theorem zip_map_self {α β : Type} (l : List α) (φ : α → β) : l.zip (l.map φ) = l.map (fun x => (x, φ x)) := by
+  induction l with
+  | nil => rfl
+  | cons a l ih => simp [ih]
+
+theorem xDBLMUL_bounded_eq (NW BITS TPE : Nat) (hW : 64 * NW = BITS) (hB : 0 < BITS) (k l : Nat) (hk : k < 2 ^ BITS)
+    (hl : l < 2 ^ BITS) (P Q PQ : EcPoint F) (curve : EcCurve F) (f : Nat) :
+    SqiGen.xDBLMUL_bounded NW BITS TPE P k Q l PQ curve f =
+      SqiModel.Ladder.xDBLMULgen BITS (some (f + 2 + (BITS - TPE))) k l P Q PQ curve := by
+  have hW1 : 1 % 2 ^ BITS = 1 := Nat.mod_eq_of_lt (Nat.one_lt_two_pow (by omega))
+  have hkm : k % 2 ^ BITS = k := Nat.mod_eq_of_lt hk
+  have hlm : l % 2 ^ BITS = l := Nat.mod_eq_of_lt hl
+  have hrec := recode_loop_fold BITS BITS 0 (by omega)
+  simp only [Nat.zero_add, ← List.range_eq_range'] at hrec
+  simp only [SqiGen.xDBLMUL_bounded, bounded_loop1_eq, xDBLMULgen, recode, hW, hW1, hkm, hlm]
+  generalize hG : List.foldl (SqiGen.xDBLMUL_loop1 BITS) _ (List.range BITS) = gfin
+  generalize hS : List.foldl (fun st i => recodeStep st (i + 1 == BITS)) _ (List.range BITS) = sfin
+  have hfin : RecRel BITS gfin sfin := by
+    rw [← hG, ← hS]
+    apply hrec
+    cases hbk : k.testBit 0 <;> cases hbl : l.testBit 0 <;> simp [RecRel, digitsOf]
+  obtain ⟨e0, _, _, _, _, er, hle⟩ := hfin
+  rw [er, ← List.map_reverse, zip_map_self]
+  have hm := main_loop_fold_b BITS TPE f gfin.2.2.2.2.2.2 hle (dblmulA24 curve) (List.range BITS).reverse
+  simp only [dblmulA24] at hm ⊢
+  generalize hGm : List.foldl (SqiGen.xDBLMUL_bounded_loop2 (F := F) BITS TPE f gfin.2.2.2.2.2.2 (copy_point (ec_curve_normalize_A24 (copy_curve curve)).A24)) _ (List.range BITS).reverse = gm
+  have hrel : MainRelB gm (((List.range BITS).reverse.map (fun i => (i, digitsOf gfin.2.2.2.2.2.2 i))).foldl
+      (fun st ir => dblmulStep (copy_point (ec_curve_normalize_A24 (copy_curve curve)).A24) st ir.2
+        (decide (ir.1 ≤ f + 2 + (BITS - TPE)))) (dblmulInit sfin.s0 P Q PQ)) := by
+    rw [← hGm]
+    apply hm
+    simp [MainRelB, dblmulInit, mask, e0]
+  obtain ⟨_, _, _, _, m0, m1, m2, _, _, _⟩ := hrel
+  rw [m0, m1, m2]
+  cases hbk : k.testBit 0 <;> cases hbl : l.testBit 0 <;> simp [dblmulOut, mask]
+
 end SqiProofs.LadderGen
